@@ -642,9 +642,15 @@ pub fn gather_dependencies(
         }
     }
 
+    // Dialect pseudo-files and the builtin macro set aren't files.  Anything
+    // else was found on disk, even if its name or its search directory starts
+    // with '*'.
     let filtered_results: Vec<IncludeDesc> = include_forms
         .into_iter()
-        .filter(|f| !f.name.starts_with(b"*"))
+        .filter(|f| {
+            let name = decode_string(&f.name);
+            name != "*macros*" && !KNOWN_DIALECTS.contains_key(&name)
+        })
         .collect();
     Ok(filtered_results)
 }
